@@ -688,7 +688,8 @@ fn setup_space_list_check(
                 );
 
                 let is_value = left_node.definition.is_value_like();
-                let is_group_value = left_node.definition.is_group_like() && last_left != current_group;
+                // a side effect block that stands before its operand is not a list item
+                let is_group_value = left_node.definition.is_group_like() && left_node.definition != Definition::SideEffect && last_left != current_group;
                 if is_value || is_group_value {
                     trace!(
                         "Value-like definition {:?} found. Will check next token for value-like to make list",
